@@ -90,6 +90,34 @@ def run_case(case, extra):
         rec = w.api_sync(w.nodes[0], "StartSyncExecution", {"stateMachineArn": arn, "name": "e", "input": text})
         ok = rec["status"] == 200
         findings += verdict(delta <= 0, ok, place, len(text), L, "%s %s" % (rec["status"], (rec["body"] or "")[:80]))
+    elif place in ("task-error-reply", "task-garbage-reply"):
+        # the reply TEXT is what the quota applies to, whatever it says: an error reply (huge errorMessage) or a body
+        # that is not JSON at all, over the limit, fails the state with States.DataLimitExceeded like any other
+        n = L + delta
+        if place == "task-error-reply":
+            head = '{"errorType": "E.Worker", "errorMessage": "'
+            text = head + "m" * (n - len(head) - 2) + '"}'
+            small_error = "E.Worker"
+        else:
+            text = "{not json " + "g" * (n - 10)
+            small_error = "States.Runtime"
+        assert len(text) == n
+        d = {"StartAt": "T", "States": {"T": {"Type": "Task", "Resource": F + "big", "End": True}}}
+        w = World(1, execution_ttl=600, script={"big": [{"raw": text}]}, functions=["big"])
+        arn = w.create_machine("m", d)
+        ex = w.start(arn, {"k": 1}, name="e")
+        w.run_quiescent(limit=700)
+        t = terminal(w, ex)
+        want = small_error if delta <= 0 else "States.DataLimitExceeded"
+        if t is None:
+            findings.append({"property": PROP, "rule": "never-terminal", "witness": place, "detail": "size %d" % n})
+        elif t["status"] != "FAILED" or t.get("error") != want:
+            findings.append({"property": PROP, "rule": "boundary", "witness": place,
+                             "detail": "%s of %d characters (limit %d%+d): execution ended %s %r, expected FAILED %r" % (
+                                 place, n, L, delta, t["status"], t.get("error"), want)})
+        elif delta > 0 and len(t.get("cause") or "") > L:
+            findings.append({"property": PROP, "rule": "boundary", "witness": place,
+                             "detail": "the refused reply travelled on as a Cause of %d characters" % len(t.get("cause") or "")})
     elif place == "callback-output-discarded":
         # SendTaskSuccess output of exactly the sizes around L in each text shape, for a Task that keeps nothing of it
         # (ResultSelector): what the API accepted (200) must then also complete the task - the API's check and the
@@ -253,6 +281,31 @@ def run_case(case, extra):
             # now one over the limit for delta<=0 -> must be refused
             if len(text + " " * max(0, 1 - delta)) > LDEF and rec2["status"] == 200:
                 findings += verdict(False, True, "definition-update", len(text) + max(0, 1 - delta), LDEF, "200")
+    elif place == "definition-escaped":
+        # the quota is on the definition's characters, not on how long the request becomes once the definition travels as
+        # a JSON string (every quote, backslash and newline of it escaped): definitions full of such characters
+        w = World(1, execution_ttl=600)
+        for fe_name, node in (("front-end", w.nodes[0]),):
+            base = {"Comment": "", "StartAt": "P", "States": {"P": {"Type": "Pass", "End": True}}}
+            unit = '\"\n\\'                                  # 3 characters that become 6 in the request body
+            pad = LDEF + delta - len(json.dumps(base))
+            filler = (unit * (pad // 6 + 1))
+            # json.dumps doubles each of them inside the definition text already: build the text, then trim the comment
+            base["Comment"] = filler
+            text = json.dumps(base)
+            over = len(text) - (LDEF + delta)
+            # removing one character of the unit removes two characters of the text; finish with plain padding
+            base["Comment"] = filler[: len(filler) - (over // 2 + 2)]
+            text = json.dumps(base)
+            base["Comment"] += "c" * (LDEF + delta - len(text))
+            text = json.dumps(base)
+            assert len(text) == LDEF + delta, (len(text), LDEF + delta)
+            rec = w.api_sync(node, "CreateStateMachine", {"name": "m", "roleArn": w.ROLE, "definition": text})
+            ok = rec["status"] == 200
+            findings += verdict(delta <= 0, ok, place, len(text), LDEF, "%s %s" % (rec["status"], (rec["body"] or "")[:80]))
+            if not ok and (rec["json"] or {}).get("__type") != "InvalidDefinition":
+                findings.append({"property": PROP, "rule": "error-type", "witness": place,
+                                 "detail": "%s %s" % (rec["status"], (rec["body"] or "")[:120])})
     elif place == "definition-empty":
         w = World(1, execution_ttl=600)
         rec = w.api_sync(w.nodes[0], "CreateStateMachine", {"name": "m", "roleArn": w.ROLE, "definition": ""})
@@ -373,6 +426,8 @@ def main(argv):
     cases += [("%s:%s" % (p, sh), d) for p in ("start-execution-input", "start-sync-execution-input", "callback-output", "task-reply")
               for sh in SHAPES for d in DELTAS]
     cases += [("callback-output-discarded:%s" % sh, d) for sh in ["string"] + SHAPES for d in DELTAS]
+    cases += [(p, d) for p in ("task-error-reply", "task-garbage-reply") for d in DELTAS]
+    cases += [("definition-escaped", d) for d in (-100000, -2, -1, 0, 1, 2)]
     cases += [("first-state-after-compact-input:%s" % st, d) for st in ("Pass", "Choice", "Choice-default", "Wait",
                                                                         "Succeed", "Task", "Parallel", "Map")
               for d in (-1000, -3, -2, -1, 0)]
@@ -386,7 +441,7 @@ def main(argv):
         rule="for L=262144: JSON texts (string values, so the text length is unambiguous) of size L-1000, L-2..L+2, L+1000 "
              "driven to StartExecution input, StartSyncExecution input, SendTaskSuccess output (then the task result), "
              "Pass output, task reply, Task output grown by ResultSelector, Parallel and Map output after the join (one "
-             "character of separator slack accepted); definitions of 1048576-2..+2 characters and empty; names of length "
+             "character of separator slack accepted); definitions of 1048576-2..+2 characters (plain and full of characters that are escaped in the request body) and empty; names of length "
              "0, 1, 80, 81 and one per forbidden character for state machines and executions; the three API inputs and the task reply "
              "also as texts whose re-serialisation is shorter (whitespace padded) or longer (compact separators) than what "
              "was sent; an input text accepted at the API whose re-serialisation is over the limit, met by a first state of every type (the execution has to end); a counting loop and a Task retried for ever, each driven past 25000 history events; accepted <=> size <= L with the documented error type / "
